@@ -367,7 +367,9 @@ Definition Target_contents_more_stmt := forall s i, Inv s -> SameSize s -> i < l
             forall k, k < Nat.min (h_size (geth s i)) n -> nth k (abs s' i) 0%Z = nth k (abs s i) 0%Z))
   (* write(k, v) / operator[] / front / back / iterators *)
   /\ (forall k v, k < h_size (geth s i) -> abs (r_s (step all_fixed s (OWrite i k v))) i = upd k v (abs s i))
-  /\ (forall k v, h_size (geth s i) <= k -> r_s (step all_fixed s (OWrite i k v)) = s)
+  (* i >= size is outside the precondition the source documents (GIVARO_ASSERT): the code is undefined there; the model
+     refuses with DOutOfRange and leaves the state as it is - nothing is claimed about the code *)
+  /\ (forall k v, h_size (geth s i) <= k -> r_df (step all_fixed s (OWrite i k v)) = Some DOutOfRange /\ r_s (step all_fixed s (OWrite i k v)) = s)
   (* reserve(n) { reallocate(n); reallocate(0); } *)
   /\ (forall n, abs (r_s (step all_fixed s (OReserve i n))) i = []
                 /\ h_size (geth (r_s (step all_fixed s (OReserve i n))) i) = 0).
@@ -379,7 +381,7 @@ Proof.
   split; [intros; cbn [step]; apply abs_copy; auto|].
   split; [intros n; cbn [step]; apply (abs_allocate s i n I Hi)|].
   split; [intros k v Hk; cbn [step]; destruct (Nat.ltb_spec k (h_size (geth s i))); [cbn [ret r_s]; apply abs_write; auto|lia]|].
-  split; [intros k v Hk; cbn [step]; destruct (Nat.ltb_spec k (h_size (geth s i))); [lia|reflexivity]|].
+  split; [intros k v Hk; cbn [step]; destruct (Nat.ltb_spec k (h_size (geth s i))); [lia|split; reflexivity]|].
   intros n. apply abs_reserve; auto.
 Qed.
 
